@@ -371,7 +371,8 @@ def check_validators(ctx, f, L):
     EC = ("each", COLOR)
     # ---------------- board
     bname = B + "::board_is_valid"
-    calc = [k for k, b in f.bodies.items() if b.kind == "AssocFn" and b.locals[0]["ty"].startswith("(cozy_chess_types::bitboard::BitBoard, cozy_chess_types::bitboard::BitBoard")]
+    from .common import checkers_pins_definition
+    calc = checkers_pins_definition(f)
     noin = lambda n: False if n in calc else None
     b, straight, loops = acceptance(f, L, bname, noin)
     where = loc(b)
